@@ -865,7 +865,10 @@ pub fn run_property(ctx: &Ctx, def: PropertyDef) -> i32 {
         "wall_s": wall,
         "violations": violations.len(),
     });
-    let evdir = ctx.verif_dir.join("evidence");
+    // VERIF_EVIDENCE_DIR redirects the evidence of experimental (scaled) runs
+    let evdir = std::env::var("VERIF_EVIDENCE_DIR")
+        .map(PathBuf::from)
+        .unwrap_or_else(|_| ctx.verif_dir.join("evidence"));
     let _ = std::fs::create_dir_all(&evdir);
     let evpath = evdir.join(format!("{}.json", ctx.prop));
     if let Err(e) = std::fs::write(&evpath, serde_json::to_string_pretty(&evidence).unwrap()) {
